@@ -112,7 +112,8 @@ Proof. exact own_check_complete. Qed.
 (* 7. Meaning of the classification table harness/torch_ops.json that the translator trusts and that the
       correspondence shards validate against the running torch: an observation permitted by a class is a step
       of the IR statement emitted for that class; the receiver's values change only where an InPlace is
-      emitted; no other operand is ever written. *)
+      emitted; its version counter (shared with all views of the storage) is bumped only where an InPlace is
+      emitted (metadata-in-place methods included) or by detach_/requires_grad_; no other operand is ever written. *)
 Theorem C13_table_class_semantics : forall ncaller c o st x recv other sr so,
   permits c o = true -> env st recv = Some sr -> env st other = Some so ->
   (c = KView \/ c = KInPlace \/ c = KMetaInPlace \/ c = KValuePres -> ov_recv o = true) ->
@@ -123,9 +124,10 @@ Theorem C13_table_class_semantics : forall ncaller c o st x recv other sr so,
      | ONew => env st' x = Some (next st)
      end)
   /\ (val_recv o = true -> emits_inplace c = true)
+  /\ (bump_recv o = true -> emits_inplace c = true \/ c = KValuePres)
   /\ val_other o = false /\ bump_other o = false.
 Proof.
-  intros. split; [eapply permits_step; eauto | split; [now apply permits_write | now apply (permits_other_quiet c)]].
+  intros. split; [eapply permits_step; eauto | split; [now apply permits_write | split; [now apply permits_version | now apply (permits_other_quiet c)]]].
 Qed.
 
 (* ---- non-vacuity ------------------------------------------------------------------------------- *)
